@@ -74,7 +74,7 @@ class Scenario:
     pass
 
 
-def build(cx, stations, rows, sessions, algo_factory, t_now=2, limit_hi=100.0, unplugged=(), sym_battery=True, finite_prev=None):
+def build(cx, stations, rows, sessions, algo_factory, t_now=2, limit_hi=100.0, unplugged=(), sym_battery=True, finite_prev=None, warmup=False):
     """stations: [(kind, voltage, phase)], rows: constraint coefficient lists, sessions: [(station index, arrival, departure, estimated departure)]"""
     import numpy as np
 
@@ -93,6 +93,19 @@ def build(cx, stations, rows, sessions, algo_factory, t_now=2, limit_hi=100.0, u
     sim = A.Simulator(net, algo, A.EventQueue(), START, period=PERIOD, verbose=False)
     evs, req, ppil, maxp = [], [], [], []
     n = len(stations)
+    if warmup:
+        # an earlier scheduler call on the same algorithm object, for other (nearly finished) sessions that occupied the same
+        # stations: whatever the algorithm keeps between calls must not leak into the call that is judged
+        warm = []
+        for j in range(n):
+            w = A.EV(0, 5, cx.real("warmup_req%d" % j, lo=0.2, hi=0.7), ids[j], "warm-%d" % j, A.Battery(1000, 0, 1000))
+            net.plugin(w)
+            warm.append(w)
+        sim._iteration = 1
+        sc.warmup_schedule = algo.run()
+        for w in warm:
+            net.unplug(w.station_id, w.session_id)
+        sim._iteration = 0
     P = np.empty((n, t_now + 1), dtype=object if cx.mode == "sym" else float)
     P.fill(0)
     for k, (j, a, d, ed) in enumerate(sessions):
